@@ -31,6 +31,8 @@ def times(variant, n):
             out.append(t)
             t += (40, 120, 73, 2400000031, 7, 1000111, 90, 160)[k % 8]
         return out
+    if mode == 'wrap':    # libwayland's stamp is a 32-bit microsecond counter: it starts again at 0 every 71.6 minutes
+        return [(2 ** 32 - 250000 + k * 100000) % 2 ** 32 for k in range(n)]
     raise ValueError(mode)
 
 
@@ -42,7 +44,7 @@ def render_history(hist, variant):
     lines, exps = [], []
     for ev, t in zip(evs, ts):
         msg, exp = ot.build(ev, ref, t, server_side=variant.get('server_side', False),
-                            conn=variant.get('conn'), queue=variant.get('queue'))
+                            conn=variant.get('conn'), queue=variant.get('queue'), decor=variant.get('decor'))
         exp['t_us'] = t
         lines.append(wlprint.render(msg, variant.get('dialect', 'mid')))
         exps.append(exp)
@@ -215,6 +217,11 @@ def make_expand(variant, kinds=None, alphabet_kw=None):
 
 
 VARIANTS = {
+    # creating / mentioning messages carry strings (with separators inside), a nil and a number after the argument that
+    # matters; strings containing `"` are outside C01's alphabet and therefore not used here either
+    'client_decorated': {'dialect': 'cur', 'decor': [['str', '13 panel, (x'], ['nil'], ['int', 2], ['str', 'a, b)']]},
+    # C02 only (C03 quantifies over non-decreasing stamps): the counter wraps right after the first explored event
+    'client_wrap_times': {'dialect': 'mid', 'time': 'wrap'},
     'client_micro_times': {'dialect': 'mid', 'time': 'micro'},
     'late_registry': {'dialect': 'mid', 'late_registry': True},
     'late_registry_server': {'dialect': 'old', 'late_registry': True, 'server_side': True, 'time': 'equal'},
